@@ -1,7 +1,12 @@
 import SmtpV.Props.C17
+import SmtpV.Props.C17Server
 #print axioms SmtpV.Props.C17.C17_roundtrip
 #print axioms SmtpV.Props.C17.C17_roundtrip_single
 #print axioms SmtpV.Props.C17.render_lines
 #print axioms SmtpV.Props.C17.C17_unset_class
 #print axioms SmtpV.Props.C17.C17_generic_envelope
 #print axioms SmtpV.Props.C17.C17_generic_data
+#print axioms SmtpV.Props.C17.C17_server_passes_mail_error
+#print axioms SmtpV.Props.C17.C17_server_passes_mail_plain_error
+#print axioms SmtpV.Props.C17.C17_server_passes_rcpt_error
+#print axioms SmtpV.Props.C17.C17_server_passes_data_error
